@@ -1,15 +1,17 @@
 #!/bin/bash
-# Creates /tmp/seedkit/go.alt.mod: /repo's go.mod with the three host libraries replaced by the API stubs of
-# /verif/sa/stubs, so that a scratch worktree builds and runs its tests (ROM suites included) without X11/PortAudio.
-# Scratch-only helper for validating fix: commits and seeded changes; no registered check uses it.
+# Creates /tmp/seedkit: go.alt.mod (= /repo's go.mod with the three host libraries replaced by pure-Go API stubs copied
+# to /tmp/seedkit/stubs), so that a scratch worktree builds and runs its tests (ROM suites included) without
+# X11/PortAudio. Scratch-only helper for validating fix: commits and seeded changes; no registered check uses it.
 set -e
 mkdir -p /tmp/seedkit
+rm -rf /tmp/seedkit/stubs
+cp -r /verif/sa/stubs /tmp/seedkit/stubs
 {
   cat /repo/go.mod
   echo
-  echo "replace github.com/go-gl/glfw => /verif/sa/stubs/glfw"
-  echo "replace github.com/go-gl/gl => /verif/sa/stubs/gl"
-  echo "replace github.com/gordonklaus/portaudio => /verif/sa/stubs/portaudio"
+  echo "replace github.com/go-gl/glfw => /tmp/seedkit/stubs/glfw"
+  echo "replace github.com/go-gl/gl => /tmp/seedkit/stubs/gl"
+  echo "replace github.com/gordonklaus/portaudio => /tmp/seedkit/stubs/portaudio"
 } > /tmp/seedkit/go.alt.mod
 : > /tmp/seedkit/go.alt.sum
 echo /tmp/seedkit/go.alt.mod
